@@ -303,7 +303,55 @@ theorem ig_gap_bound_vanishes (K ε : ℝ) (hε : 0 < ε) :
   nlinarith
 
 
+/-! ### every input scale -/
+
+private theorem interp_scale (steps : Nat) (b s : Rat) (hs : s ≠ 0) (x : Vec) (j : Nat) :
+    (interp steps (b * s) (x.map (· * s)) j).map (· / s) = interp steps b x j := by
+  unfold interp
+  rw [List.map_map, List.map_map]
+  apply List.map_congr_left; intro xi _
+  simp only [Function.comp]
+  field_simp
+
+private theorem sumQ_map_mul_right (l : List Nat) (f : Nat → Rat) (c : Rat) :
+    sumQ (l.map fun j => f j * c) = sumQ (l.map f) * c := by
+  induction l with
+  | nil => simp
+  | cons a l ih => simp only [List.map_cons, sumQ, ih]; ring
+
+/-- scale covariance: explaining the score `p ↦ S(p / s)` (gradient `(1/s) ∇S(p / s)`) at the input `x·s` with the baseline
+    `b·s` gives exactly the attributions of `S` at `x` with baseline `b`, for every `s ≠ 0` however small or large: the
+    attribution is `(x − baseline) ·` trapezoid at every magnitude of the inputs (no threshold below which a feature counts as
+    equal to the baseline) -/
+theorem ig_scale_covariant (g : Vec → Vec → Vec) (steps : Nat) (b s : Rat) (hs : s ≠ 0) (x y : Vec) :
+    specOne (fun p t => (g (p.map (· / s)) t).map (· / s)) steps (b * s) (x.map (· * s)) y = specOne g steps b x y := by
+  rw [specOne_flat, specOne_flat, List.length_map]
+  apply List.map_congr_left; intro d hd
+  have hd' : d < x.length := List.mem_range.mp hd
+  simp only [interp_scale steps b s hs]
+  have hx : (x.map (· * s)).getD d 0 = x.getD d 0 * s := by
+    simp [List.getD_eq_getElem?_getD, hd']
+  have hg : ∀ v : Vec, (v.map (· / s)).getD d 0 = v.getD d 0 / s := by
+    intro v
+    by_cases h : d < v.length
+    · simp [List.getD_eq_getElem?_getD, h]
+    · simp [List.getD_eq_getElem?_getD, h]
+  rw [hx]
+  simp only [hg]
+  have : (fun j => (g (interp steps b x j) y).getD d 0 / s + (g (interp steps b x (j + 1)) y).getD d 0 / s)
+       = fun j => ((g (interp steps b x j) y).getD d 0 + (g (interp steps b x (j + 1)) y).getD d 0) * (1 / s) := by
+    funext j; ring
+  rw [this, sumQ_map_mul_right]
+  field_simp
+
+
 /-! ### non-vacuity -/
+
+-- scale covariance on a concrete score (Σ x_d², s = 2^-10): same attributions as at scale one
+example : specOne (fun p t => ((fun q _ => q.map (2 * ·)) (p.map (· / (1 / 1024))) t).map (· / (1 / 1024))) 3
+      (1 * (1 / 1024)) ([1, 3].map (· * (1 / 1024))) []
+    = specOne (fun q _ => q.map (2 * ·)) 3 1 [1, 3] [] := by decide +kernel
+
 
 -- a non-constant C² derivative along the path (score Σ x_d², ψ(t) = 8t + 4, K = 0) meets the hypotheses of `ig_gap_smooth`
 example : ∃ (ψ : ℝ → ℝ) (K : ℝ), ContDiffOn ℝ 2 ψ (Set.uIcc (0 : ℝ) 1)
